@@ -667,6 +667,25 @@ def F42():
         return f"an update rejected at the second point (whose tag set is a Mapping that is no dict) raised {raised} and left the fields {held}"
 
 
+def F43():
+    # the access-mode gates under `python -O`: a child interpreter runs harness/c15_optimized.py against the same tree
+    import json, shutil, subprocess, tempfile
+    import tinyflux
+    root = os.path.dirname(os.path.dirname(os.path.abspath(tinyflux.__file__)))
+    here = os.path.dirname(os.path.dirname(os.path.abspath(__file__)))
+    d = tempfile.mkdtemp(prefix="f43_")
+    try:
+        out = subprocess.run([sys.executable, "-O", os.path.join(here, "harness", "c15_optimized.py"), d], capture_output=True, text=True,
+                             env={"PYTHONPATH": root, "PYTHONHASHSEED": "0", "PYTHONDONTWRITEBYTECODE": "1"}).stdout
+        found = json.loads([l for l in out.splitlines() if l.startswith("[")][-1])
+    finally:
+        shutil.rmtree(d, ignore_errors=True)
+    if found:
+        x = found[0]
+        return (f"under python -O, {x['operation']} on a database opened with access_mode={x['access_mode']!r} raised {x['raised']} and left the file "
+                f"{'unchanged' if x['file_unchanged'] else 'CHANGED'} ({len(found)} such calls)")
+
+
 ALL = [k for k in list(globals()) if re.fullmatch(r"F\d+[a-c]?", k)]
 
 if __name__ == "__main__":
